@@ -1,13 +1,17 @@
-"""C03 -- text layout structure, second file: trim_line, LayoutSegment.subseg, calc_coords, calc_line_pos, calc_pos (and
-what they need) on the real functions of urwid/text_layout.py.  (contracts/C03_layout.py holds line_width, shift_line,
-align_layout, pack, layout and the primary LayoutSegment.__init__ contract; the contracts here on functions that file
-also covers are registered under the alias `layout2`: verified against the body, never used at other call sites.)
+"""C03 -- text layout structure, second file: LayoutSegment.subseg, trim_line, calc_coords, calc_line_pos, calc_pos,
+StandardTextLayout.calculate_text_segments ('any' wrapping; 'clip' / 'ellipsis' = _calculate_trimmed_segments) on the
+real functions of urwid/text_layout.py, over the abstract text model of contracts/C11_width.py (W = width prefix sums).
+(contracts/C03_layout.py holds line_width, shift_line, align_layout, pack, layout and the primary LayoutSegment.__init__
+contract; the contracts here on functions that file also covers are registered under an alias: verified against the
+body, never used at other call sites -- the functions of this file reach the constructor contract through
+`contract_overrides`.)  'space' wrapping stays with the bounded stand-in.
 
 A layout is a list of lines; a line is a list of segments; a segment is one of
     (cols, offs | None)          padding / end-of-line marker ("removed character hint")
     (cols, offs, end_offs)       a run of the text  text[offs:end_offs]  shown in `cols` columns
     (cols, offs, bytes)          inserted text (the ellipsis mark)
-modelled as a tagged union per list index (pyvc.seqs.fresh_seq, shape Union).
+modelled as a tagged union per list index (pyvc.seqs.fresh_seq, shape Union) whose first components carry a prefix-sum
+model field (`colsum`).
 """
 import z3
 
@@ -1059,6 +1063,9 @@ def _cts_ens(old, s, a, result, callee=False):
     t, width = a.text, a.width
     n = tlen(t)
     m = Q.seq_len(result)
+    if bool(either(a.wrap == "clip", a.wrap == "ellipsis")):
+        yield from _cts2_ens(old, s, a, result, callee)   # handed to _calculate_trimmed_segments: its postcondition
+        return
     if not bool(a.wrap == "any"):   # (a normal exit with an unknown wrap mode: every paragraph fitted; nothing claimed)
         return
     yield "at-least-one-line", m >= 1
@@ -1071,14 +1078,14 @@ def _cts_ens(old, s, a, result, callee=False):
         yield "every-line-continues-the-one-before-fits-the-width-and-is-filled", implies(both(0 <= k, k < m), line_ok(k))
 
 
-@contract(TL + "StandardTextLayout.calculate_text_segments", property="C03", replayable=False, alias="any-wrap")
+@contract(TL + "StandardTextLayout.calculate_text_segments", property="C03", replayable=False, alias="any-clip-ellipsis")
 class calculate_text_segments_any:
     """'any' wrapping, on the abstract text model (str).  ('space' wrapping -- the scan back to the last space, the
     un-wrapping of the previous line -- stays with the bounded stand-in; 'clip' / 'ellipsis' are
     _calculate_trimmed_segments.)  Registered under an alias: contracts/C03_layout.py holds the (assumed) model that
     `layout` uses at its call site."""
     self_shape = STL2
-    params = dict(text=TEXT_QF, width=Int, wrap=Atom("any", "bogus"))
+    params = dict(text=TEXT_QF, width=Int, wrap=Atom("any", "clip", "ellipsis", "bogus"))
     setup = staticmethod(_newline_has_no_width)
     result = LAYOUT2
     raises = (_tl.CanNotDisplayText, ValueError)
@@ -1092,7 +1099,7 @@ class calculate_text_segments_any:
 
     def on_raise(old, s, a, exc):
         if exc.cls is ValueError:
-            yield "value-error-only-for-an-unknown-wrap-mode", neg(a.wrap == "any")
+            yield "value-error-only-for-an-unknown-wrap-mode", a.wrap == "bogus"
         else:
             # witness: the function's idx at the raise
             idx = cur().ghost.get("exit_locals", {}).get("idx")
@@ -1325,7 +1332,13 @@ def _cts2_ens(old, s, a, result, callee=False):
     t = a.text
     m = Q.seq_len(result)
     loc = cur().ghost.get("exit_locals", {})
-    ew = cur().fresh_int("mark_width") if callee or "ellipsis_width" not in loc else loc["ellipsis_width"]
+    # witness of "there is a mark width ew such that": the function's own ellipsis_width; at a call site a fresh constant,
+    # remembered so that a caller handing the result on can name the same witness
+    if callee:
+        ew = cur().fresh_int("mark_width")
+        cur().ghost["mark_width_witness"] = ew
+    else:
+        ew = loc["ellipsis_width"] if "ellipsis_width" in loc else cur().ghost.get("mark_width_witness", cur().fresh_int("mark_width"))
     for q in (m, m - 1):
         par_unfold(t, q)
     yield "one-line-per-paragraph-of-the-text", both(m >= 1, PAR(t, m) == tlen(t) + 1)
